@@ -213,6 +213,11 @@ func (e *Engine) checkInverted(
 		go check(graph.WithFreshVisited(ctx), innerCh)
 		select {
 		case result := <-innerCh:
+			if result.Err != nil {
+				// An error is never inverted into a membership.
+				resultCh <- checkgroup.Result{Err: result.Err}
+				return
+			}
 			// invert result here
 			switch result.Membership {
 			case checkgroup.IsMember:
